@@ -38,6 +38,8 @@ ASSUMPTIONS = [
     'a hang is reported only when the same call exceeds the 1 s limit three times in a row (normal cost about 60 microseconds)',
     'the class carries a second reflexive 1C:1C association (R3, phrases up/down, instances chained in creation order) as a '
     'distractor; only R2 is sorted',
+    'one chain, one ring and two chains of 1500 (thorough 4000) members -- longer than the interpreter\'s default recursion limit -- '
+    'are sorted across both phrases from three set orders',
     'argument validation of sort_reflexive (non-QuerySet argument, unknown phrase) is not part of the statement and is not checked',
 ]
 
@@ -259,6 +261,12 @@ def build(succ, mode, pal):
                 tmp = m.new('A')
                 xtuml.relate(tmp, w.insts[z], REL, p_succ)
                 xtuml.delete(tmp)
+        # after the rejected calls every link is taken apart and made again (from the other end): whatever a rejected
+        # call left behind unseen would now take the place of the legitimate partner
+        for x, y in enumerate(succ):
+            if y is not None:
+                xtuml.unrelate(w.insts[y], w.insts[x], REL, p_pred)
+                xtuml.relate(w.insts[y], w.insts[x], REL, p_pred)
     w.label = dict((inst, k) for k, inst in enumerate(w.insts))
     # harness precondition (not the property): the links are the intended ones
     pred = [None] * len(succ)
@@ -490,6 +498,39 @@ def run_world(sub, task):
     return None
 
 
+LONG_N = {'quick': 1500, 'thorough': 4000}
+
+
+def long_worlds(tier):
+    '''One chain, one ring and two chains of a length beyond python's default recursion limit (labels = creation order).'''
+    n = LONG_N[tier]
+    chain = tuple(list(range(1, n)) + [None])
+    ring = tuple(list(range(1, n)) + [0])
+    half = n // 2
+    two = tuple(list(range(1, half)) + [None] + list(range(half + 1, n)) + [None])
+    return [('chain', chain), ('ring', ring), ('two-chains', two)]
+
+
+def long_task(sub, task):
+    shape, succ = task
+    n = len(succ)
+    pal = sub.seed % len(PALETTES)
+    try:
+        w = build(succ, 0, pal)
+    except (core.HarnessError, Exception) as e:
+        sub.violation('c16:build:arrangement', make_case(n, succ, 0, pal, (0,), 0, 0),
+                      'a %s of %d members could not be built through the public API: %s' % (shape, n, e))
+        return None
+    sub.count('long_worlds')
+    orders = [tuple(range(n)), tuple(reversed(range(n))), tuple(list(range(n // 3, n)) + list(range(n // 3)))]
+    for S in orders:
+        for pi in (0, 1):
+            sub.count('long_sort_calls')
+            if not check_one(sub, w, n, succ, 0, pal, S, pi, 0):
+                return None
+    return None
+
+
 def unit_test(case):
     p_pred, p_succ = PALETTES[case['palette']]
     n = case['n']
@@ -551,6 +592,8 @@ def run(ctx):
     k = ctx.seed % 7
     big = big[k:] + big[:k]
     ctx.pmap(run_world, small + big, chunk=max(8, len(tasks) // 512))
+    ctx.pmap(long_task, long_worlds(ctx.tier), chunk=1)
+    ctx.require(ctx.n('long_sort_calls') >= 18, 'long chains / rings were not sorted (%d calls)' % ctx.n('long_sort_calls'))
     top = 5 if ctx.quick else 7
     ctx.notes['worlds_enumerated'] = len(ws)
     print('  worlds=%d sort_calls=%d chains=%d ring=%d generic=%d empty=%d t=%.0fs' %
